@@ -26,6 +26,8 @@ type BroadcastMessage struct {
 	Content     []byte   `json:"Content"`
 	ContentHash [16]byte `json:"ContentHash"`
 	ConnId      string   `json:"ConnId"`
+	Database    int      `json:"Database"` // logical database the forwarding connection had selected
+	Protocol    int      `json:"Protocol"`
 }
 
 // Invalidates Implements Broadcast interface
